@@ -121,8 +121,8 @@ class PassHarness:
     # MultiFunction under map_expr_dag
     def map_expr_dag(self, function, expression, compress=True, vcache=None, rcache=None):
         tab = self._table_of(function)
-        memo = vcache if isinstance(vcache, dict) and vcache is not None else {}
-        local = {}
+        # a caller-supplied vcache persists between calls (corealg.map_dag stores result per node in it)
+        local = vcache if isinstance(vcache, dict) else {}
         # corealg.map_dag picks cutoff_unique_post_traversal when the function has any cut-off
         # handler; that traversal visits operands right-to-left, unique_post_traversal left-to-right
         right_to_left = any(h is not None and h.kind == "cutoff" for h in tab.values())
@@ -130,7 +130,7 @@ class PassHarness:
         def rec(x):
             key = id(x)
             if key in local:
-                return local[key]
+                return local[key][1]
             h = self.handler_for(x, tab)
             self.calls += 1
             if h.kind == "cutoff":
@@ -143,7 +143,7 @@ class PassHarness:
                     done[n] = rec(operands[n])
                 ops = [done[n] for n in range(len(operands))]
                 r = self.ip.call_function(h.func, [x] + ops, {}, self_obj=function)
-            local[key] = r
+            local[key] = (x, r)  # keeps x alive: id() stays unique
             return r
 
         return rec(expression)
